@@ -131,28 +131,37 @@ type wrapperCtx struct {
 // cell that is assigned exactly once.
 func closureTarget(v ssa.Value) *ssa.Function {
 	var out *ssa.Function
-	for _, o := range origins(v) {
-		var mc *ssa.MakeClosure
-		switch x := o.(type) {
+	// a function literal that captures nothing is a plain function value, not a MakeClosure
+	fnOf := func(sv ssa.Value) *ssa.Function {
+		switch x := sv.(type) {
 		case *ssa.MakeClosure:
-			mc = x
+			f, _ := x.Fn.(*ssa.Function)
+			return f
+		case *ssa.Function:
+			if x.Parent() != nil {
+				return x
+			}
+		}
+		return nil
+	}
+	for _, o := range origins(v) {
+		var f *ssa.Function
+		switch x := o.(type) {
+		case *ssa.MakeClosure, *ssa.Function:
+			f = fnOf(x)
 		case *ssa.UnOp:
 			if fv, ok := x.X.(*ssa.FreeVar); ok {
 				if a, ok := bindingOf(fv.Parent(), freeVarIndex(fv.Parent(), fv)).(*ssa.Alloc); ok {
 					if sv := singleStoreCell(a); sv != nil {
-						mc, _ = sv.(*ssa.MakeClosure)
+						f = fnOf(sv)
 					}
 				}
 			} else if a, ok := x.X.(*ssa.Alloc); ok {
 				if sv := singleStoreCell(a); sv != nil {
-					mc, _ = sv.(*ssa.MakeClosure)
+					f = fnOf(sv)
 				}
 			}
 		}
-		if mc == nil {
-			return nil
-		}
-		f, _ := mc.Fn.(*ssa.Function)
 		if f == nil || out != nil && out != f {
 			return nil
 		}
@@ -462,10 +471,40 @@ func freshInit(vec ssa.Value) ssa.Value {
 				return args[0]
 			}
 		}
-	case *ssa.Alloc:
+	case *ssa.Alloc, *ssa.MakeSlice:
 		return ssa.NewConst(constant.MakeInt64(0), types.Typ[types.Int])
 	}
 	return nil
+}
+
+// lenInFrame: `len(p)` of a helper closure's vector parameter whose argument at the call the current view chain
+// came through is a literal of known length.
+func (w *wrapperCtx) lenInFrame(v ssa.Value) (int64, bool) {
+	c, ok := stripConv(v).(*ssa.Call)
+	if !ok {
+		return 0, false
+	}
+	if bi, ok := c.Common().Value.(*ssa.Builtin); !ok || bi.Name() != "len" || len(c.Common().Args) != 1 {
+		return 0, false
+	}
+	arg := w.argFor(c.Common().Args[0])
+	if arg == c.Common().Args[0] {
+		if _, isPrm := stripConv(arg).(*ssa.Parameter); isPrm {
+			return 0, false
+		}
+	}
+	if os := origins(arg); len(os) == 1 && os[0] != nil {
+		arg = os[0]
+	}
+	switch b := vecBase(arg).(type) {
+	case *ssa.Alloc:
+		if at, ok := b.Type().Underlying().(*types.Pointer).Elem().Underlying().(*types.Array); ok {
+			return at.Len(), true
+		}
+	case *ssa.MakeSlice:
+		return constInt(b.Len)
+	}
+	return 0, false
 }
 
 func allConst(vals []ssa.Value, want int64) bool {
@@ -924,14 +963,39 @@ func (w *wrapperCtx) checkBroadcast() {
 					continue
 				}
 				used := false
+				// the Slice calls that take the vector as their position: directly, or inside a local helper closure the
+				// vector is handed to (`inputsOf(pos)` returning inputs.Slice(pos, …))
+				var sliceCalls []*ssa.Call
 				for _, r2 := range refsDeep(vecBase(ia.X)) {
 					call, ok := r2.(*ssa.Call)
-					if !ok || callName(call.Common()) != "Slice" {
+					if !ok {
 						continue
 					}
-					args := callArgs(call.Common())
-					if len(args) != 3 || vecBase(args[0]) != vecBase(ia.X) {
+					if callName(call.Common()) == "Slice" {
+						if args := callArgs(call.Common()); len(args) == 3 && vecBase(args[0]) == vecBase(ia.X) {
+							sliceCalls = append(sliceCalls, call)
+						}
 						continue
+					}
+					if h := closureTarget(call.Common().Value); h != nil && !call.Common().IsInvoke() {
+						for ai, a := range call.Common().Args {
+							if vecBase(a) != vecBase(ia.X) || ai >= len(h.Params) {
+								continue
+							}
+							for _, c2 := range callsIn(h) {
+								hc, ok := c2.(*ssa.Call)
+								if !ok || callName(hc.Common()) != "Slice" {
+									continue
+								}
+								if hargs := callArgs(hc.Common()); len(hargs) == 3 && origin1(hargs[0]) == ssa.Value(h.Params[ai]) {
+									sliceCalls = append(sliceCalls, hc)
+								}
+							}
+						}
+					}
+				}
+				for _, call := range sliceCalls {
+					{
 					}
 					used = true
 					recv := recvOf(call.Common())
@@ -962,14 +1026,54 @@ func (w *wrapperCtx) checkBroadcast() {
 			continue
 		}
 		found := false
+		// the cuts: Slice calls in the goroutine, and Slice calls in a local helper closure it calls with the table
+		type cut struct {
+			sl, via *ssa.Call
+		}
+		var cuts []cut
 		eachInstr(cl, func(_ *ssa.BasicBlock, _ int, ins ssa.Instruction) {
 			call, ok := ins.(*ssa.Call)
-			if !ok || callName(call.Common()) != "Slice" {
+			if !ok {
 				return
 			}
-			recv := recvOf(call.Common())
-			if w.roleOfRoot(recv) != "param:"+ps.Name {
+			if callName(call.Common()) == "Slice" {
+				cuts = append(cuts, cut{call, nil})
 				return
+			}
+			if call.Common().IsInvoke() {
+				return
+			}
+			if h := closureTarget(call.Common().Value); h != nil && h != cl && len(h.Blocks) > 0 {
+				eachInstr(h, func(_ *ssa.BasicBlock, _ int, hi ssa.Instruction) {
+					if sl, ok := hi.(*ssa.Call); ok && callName(sl.Common()) == "Slice" {
+						cuts = append(cuts, cut{sl, call})
+					}
+				})
+			}
+		})
+		for _, ct := range cuts {
+			call := ct.sl
+			saveFrames, saveHook := w.frames, vecIndexHook
+			if ct.via != nil {
+				h := call.Parent()
+				w.frames = map[*ssa.Function]*ssa.Call{}
+				for fn, c := range saveFrames {
+					w.frames[fn] = c
+				}
+				w.frames[h] = ct.via
+				fr := w.frames
+				vecIndexHook = func(v ssa.Value) (int64, bool) {
+					cur := w.frames
+					w.frames = fr
+					defer func() { w.frames = cur }()
+					return w.lenInFrame(v)
+				}
+			}
+			restore := func() { w.frames, vecIndexHook = saveFrames, saveHook }
+			recv := w.argFor(recvOf(call.Common()))
+			if w.roleOfRoot(recv) != "param:"+ps.Name {
+				restore()
+				continue
 			}
 			found = true
 			args := callArgs(call.Common())
@@ -1016,7 +1120,8 @@ func (w *wrapperCtx) checkBroadcast() {
 					w.r.Fail("R04.4", okey+":from", w.p.Pos(call.Pos()), "table parameter slice does not start at 0 along its table dimension")
 				}
 			}
-		})
+			restore()
+		}
 		if !found {
 			w.r.Undecided("R04.4", fmt.Sprintf("%s:table:%s", key, ps.Name), w.p.Pos(cl.Pos()), "no Slice of the table parameter found in the goroutine")
 		}
@@ -1170,6 +1275,11 @@ func (w *wrapperCtx) sameArray(a, b ssa.Value) bool {
 	if sameObject(a, b) {
 		return true
 	}
+	// inside a helper closure: the parameter stands for the argument of the call the view chain came through
+	a, b = w.argFor(a), w.argFor(b)
+	if sameObject(a, b) {
+		return true
+	}
 	ra, rb := w.roleOfRoot(origin1(a)), w.roleOfRoot(origin1(b))
 	if ra != "" && ra == rb {
 		return true
@@ -1272,6 +1382,14 @@ func (w *wrapperCtx) checkKernelArgs() {
 				// Slice(...) result typeasserted: the call itself is the view
 				r2, _, _ := rootOfView(call)
 				if w.roleOfRoot(r2) == "param:"+ps.Name {
+					good = true
+					continue
+				}
+				// the view is cut by a local helper closure that is handed the table
+				saveFrames := w.frames
+				r3, _, _ := w.rootOfView(call)
+				w.frames = saveFrames
+				if w.roleOfRoot(r3) == "param:"+ps.Name {
 					good = true
 					continue
 				}
